@@ -286,6 +286,7 @@ class Scenario:
         o.append('#define SIM_DEFAULT_RULE %d' % self.default_rule_id())
         o.append('#define SIM_HAS_TABLES %d' % int(self.tables_file))
         o.append('#define SIM_USER_INPUT %d' % int(self.user_input))
+        o.append('#define SIM_READ_SYSCALL %d' % int(bool(self.use_read) and not self.user_input))
         o.append('#include "sim_pre.h"')
         o.append('%}')
         opts = ['noyyalloc', 'noyyrealloc', 'noyyfree', 'nounistd']
